@@ -825,6 +825,13 @@ def hash_rules(run, r_accept, r_same, r_publish, r_checked, r_allids, ast):
         run.instance(r_accept, "%s: parameters are accepted only when the last complete scan left `found` set; hash_length = hash_max + 1" % short(f), (f["file"], rets[0]["l"] if rets else f["line"]), ok=bool(oka))
         if not oka:
             run.violation(r_accept, "fast_perfect_hash::hash_initialize|accept", "the function does not return solely from `if (found)` after the scan with hash_length = hash_max + 1", (f["file"], rets[0]["l"] if rets else f["line"]))
+        # exhaustion: falling out of the search loop builds a hash_search_error, calls the handler and aborts
+        ps = astq.enum_paths(f["body"], lambda c: None, lambda n: (n.get("k") in ("CallExpr", "CXXOperatorCallExpr") and (n.get("callee") == "abort" or any(
+            (astq.refname(y) or "").endswith("::error") for y in astq.walk(n)))) or (n.get("k") == "DeclStmt" and any("hash_search_error" in d["type"] for d in n["decls"])))
+        okx = bool(ps) and all(p.get("noreturn") and any(n.get("k") == "DeclStmt" for k0, n in p["events"]) for p in ps if p["returned"] is None)
+        run.instance(r_accept, "%s: an exhausted search reports hash_search_error and aborts (never installs parameters)" % short(f), (f["file"], f["line"]), ok=okx)
+        if not okx:
+            run.violation(r_accept, "fast_perfect_hash::hash_initialize|exhaustion", "a path leaves the search loop without reporting hash_search_error and aborting", (f["file"], f["line"]))
         # same index expression as hash_type_id; shift / table size from the same M
         idx = [d for n in astq.walk(inner["body"]) if n.get("k") == "DeclStmt" for d in n["decls"] if d.get("init") is not None and _hash_expr(d["init"])]
         owner = re.sub(r"::hash_initialize<.*$", "", f["name"])
